@@ -78,6 +78,7 @@ func TestC12(t *testing.T) {
 			warm++
 		}
 		e.Stats["warmup_namespace_free_types"] = warm
+		e.Stats["sparse_warmup_messages"] = sparseWarm(g, g.Roots, flw, tr)
 	}
 	maxOcc, perRoot := 1, 12
 	if e.Thorough() {
@@ -325,6 +326,126 @@ func TestC12(t *testing.T) {
 			if err != nil || cmp == "differs" {
 				e.Violation(map[string]any{"what": fmt.Sprintf("random %s: real translation vs reference: %s %v", g.Types[r].Go, cmp, err), "ops": []string{fmt.Sprintf("# rand %d %d seed %d", r, i, e.Seed)}})
 			}
+		}
+	}
+	// deep recursion: the same leaves below a long chain through a recursive type (Failure.cause of a deep child-workflow
+	// hierarchy, nested payload/link containers ...). The enumeration above bounds how often a type may occur on a path;
+	// here a path is "pumped": a cycle of the type graph through one of its types is inserted k times. The theorems hold
+	// at any depth; so must the code.
+	{
+		cycles := map[int][]tStep{}
+		cycleOf := func(t int) []tStep {
+			if c, ok := cycles[t]; ok {
+				return c
+			}
+			type node struct {
+				ty   int
+				path []tStep
+			}
+			seen := map[int]bool{}
+			queue := []node{{t, nil}}
+			var found []tStep
+			for len(queue) > 0 && found == nil {
+				n := queue[0]
+				queue = queue[1:]
+				ty := g.Types[n.ty]
+				for pos := range ty.Fields {
+					f := &ty.Fields[pos]
+					if f.Blob {
+						continue
+					}
+					for _, nx := range f.Targets {
+						st := append(append([]tStep{}, n.path...), tStep{Ty: n.ty, Pos: pos, Next: nx})
+						if nx == t {
+							found = st
+							break
+						}
+						if !seen[nx] && len(st) < 6 {
+							seen[nx] = true
+							queue = append(queue, node{nx, st})
+						}
+					}
+					if found != nil {
+						break
+					}
+				}
+			}
+			cycles[t] = found
+			return found
+		}
+		pump := func(p tPath, k int) (tPath, bool) {
+			// types on the path: Steps[i].Ty for each step, then LeafTy
+			for i := len(p.Steps); i >= 0; i-- {
+				t := p.LeafTy
+				if i < len(p.Steps) {
+					t = p.Steps[i].Ty
+				}
+				c := cycleOf(t)
+				if c == nil {
+					continue
+				}
+				q := tPath{Root: p.Root, LeafTy: p.LeafTy, LeafPos: p.LeafPos}
+				q.Steps = append(q.Steps, p.Steps[:i]...)
+				for j := 0; j < k; j++ {
+					q.Steps = append(q.Steps, c...)
+				}
+				q.Steps = append(q.Steps, p.Steps[i:]...)
+				return q, true
+			}
+			return p, false
+		}
+		depths := []int{3, 12, 26, 31, 45, 64, 70, 130, 300}
+		rootsDeep := roots
+		perRootDeep := 1
+		if e.Thorough() {
+			perRootDeep = 6
+		}
+		nDeep, maxSteps := 0, 0
+		for _, r := range rootsDeep {
+			paths := enumPaths(g, r, nsLeaf, 1, 20000)
+			var pumpable []tPath
+			for _, p := range paths {
+				if _, ok := pump(p, 1); ok {
+					pumpable = append(pumpable, p)
+				}
+			}
+			if len(pumpable) == 0 {
+				continue
+			}
+			for i := 0; i < perRootDeep; i++ {
+				p0 := pumpable[e.Rng.IntN(len(pumpable))]
+				ks := []int{depths[e.Rng.IntN(len(depths))], 70 + e.Rng.IntN(80)}
+				if e.Thorough() {
+					ks = depths
+				}
+				for _, k := range ks {
+					p, _ := pump(p0, k)
+					m, err := buildAlong(g, p, func(f reflect.Value) { f.SetString("local-ns") })
+					if err != nil {
+						e.Count("deep_unbuildable")
+						continue
+					}
+					op := "path " + p.opString()
+					cmp, terr := translateAndCompare(tr, m, true, ro)
+					obs := "missed"
+					if terr != nil {
+						obs = "error"
+					} else if leaf, lerr := readLeaf(g, p, m); lerr == nil && leaf.Kind() == reflect.String && leaf.String() == "remote-ns" {
+						obs = "translated"
+					}
+					e.Emit(op, obs)
+					e.Evals++
+					nDeep++
+					maxSteps = max(maxSteps, len(p.Steps))
+					e.Count("deep_" + obs)
+					if obs != "translated" || cmp != "equal" {
+						e.Violation(map[string]any{"what": fmt.Sprintf("namespace name at %s (root %s) below a chain of %d nested %s (path of %d steps): %s, compared with the reference translation: %s", describePath(g, p0), g.Types[p.Root].Go, k, "recursive values", len(p.Steps), obs, cmp), "ops": []string{op}})
+					}
+				}
+			}
+		}
+		if ex, ok := e.Stats["extra"].(map[string]any); ok {
+			ex["deep_recursion_cases"], ex["deep_recursion_max_path_steps"] = nDeep, maxSteps
 		}
 	}
 	e.Sample([]string{"path r5 f5.2.17 f17.0.40 l40.3"})
